@@ -126,10 +126,14 @@ def o_c10(ctx):
     s = single(ctx.s, "SPECBUILD")
     if ctx.died:
         return [v(ctx.c, "construction killed the process", ctx.died[0])]
+    d = single(ctx.i, "DEFAULTB")
+    if d is not None and d[0] != "1":
+        out.append(v(ctx.c, "a builder obtained from Default::default() does not behave like Builder::new() / the static constructor",
+                     " ".join(d[1:])))
     if b is None or s is None:
         return out
     if b[0] == "panic":
-        return [v(ctx.c, "construction panicked", "")]
+        return out + [v(ctx.c, "construction panicked", "")]
     huge = ctx.c.nfb > 65536
     if s == ["ok"]:
         if b != ["ok"] and not (huge and b == ["err:AutomatonScale"]):
@@ -289,7 +293,7 @@ PROPS = {
     "C08": dict(tags={"BUILD", "TABLE", "OVL", "FIND", "NOS", "LEFT"}, oracle=o_c08, group=g_c08),
     "C09": dict(tags={"BUILD", "IMG", "RT", "ROVL", "RFIND", "RNOS", "RLEFT", "ROVLI", "RFINDI", "RNOSI", "OVL", "FIND",
                       "NOS", "LEFT"}, oracle=o_c09),
-    "C10": dict(tags={"BUILD"}, oracle=o_c10, profiles=("debug", "release")),
+    "C10": dict(tags={"BUILD", "DEFAULTB"}, oracle=o_c10, profiles=("debug", "release")),
     "C11": dict(tags={"BUILD", "IMG", "STATS", "TABLE", "OVL", "FIND", "NOS", "LEFT"}, oracle=o_c11, group=g_c11),
     "C12": dict(tags={"BUILD", "OVL", "FIND", "NOS", "OVLI", "FINDI", "NOSI"}, oracle=o_c12),
     "C13": dict(tags={"BUILD", "TABLE", "TICKS", "RTICKS", "KINDCHK", "KINDCHKI"}, oracle=o_c13),
